@@ -298,3 +298,43 @@ def cases(draw, feats=ALL_FEATS, clean=True, n_scheds=3, **kw):
     var = draw(variants(prog, feats=feats))
     scheds = [draw(schedules(prog)) for _ in range(n_scheds)]
     return {'program': prog, 'variant': var, 'scheds': scheds}
+
+
+@st.composite
+def layered_dags(draw, max_layers=5, max_width=4, modes=S.MODES):
+    """plain-Input DAGs with explicit layers: every node draws >=1 parent from the previous layer and optional
+    parents from earlier ones, the output joins the last layer (wide generations are the norm)"""
+    mode_st = st.sampled_from([m for m in modes for _ in range({'gated': 3, 'thread': 2}.get(m, 1))])
+    nodes = [{'id': 'n0', 'params': [], 'mode': draw(mode_st)}]
+    layers = [['n0']]
+    k = 1
+    for _ in range(draw(st.integers(1, max_layers - 1))):
+        width = draw(st.sampled_from([1, 2, 2, 3, 3, 4][:max(1, max_width + 2)]))
+        layer = []
+        for _ in range(min(width, max_width)):
+            nid = f'n{k}'
+            k += 1
+            prev = layers[-1]
+            earlier = [x for l in layers[:-1] for x in l]
+            parents = [draw(st.sampled_from(prev))]
+            for _ in range(draw(st.integers(0, 2))):
+                pool = [x for x in prev + earlier if x not in parents]
+                if pool:
+                    parents.append(draw(st.sampled_from(pool)))
+            node = {'id': nid, 'params': [[f'k{j}', ['in', p]] for j, p in enumerate(parents)],
+                    'mode': draw(mode_st)}
+            if draw(st.integers(0, 6)) == 0:
+                node['generic'] = True
+            nodes.append(node)
+            layer.append(nid)
+        layers.append(layer)
+    last = layers[-1]
+    out_parents = list(last)
+    extra = [x for l in layers[1:-1] for x in l]
+    for _ in range(draw(st.integers(0, 2))):
+        pool = [x for x in extra if x not in out_parents]
+        if pool:
+            out_parents.append(draw(st.sampled_from(pool)))
+    nodes.append({'id': f'n{k}', 'params': [[f'k{j}', ['in', p]] for j, p in enumerate(out_parents)],
+                  'mode': draw(mode_st)})
+    return {'nodes': nodes, 'output': f'n{k}'}
